@@ -54,6 +54,9 @@ pub enum Field {
     SizedFlag { width: u8, be: bool, flag: u8, mask: u8, target: Shape },
     /// a length field bounding a second length field which bounds a block (a TLV header whose own size is announced)
     SizedLen { w1: u8, be1: bool, w2: u8, be2: bool, data: Vec<u8> },
+    /// a length field (announcing n bytes) and a flag that may skip the very field the length describes: when the flag is set the
+    /// block is absent although its length field still says n
+    SizedSkipped { width: u8, be: bool, flag: u8, mask: u8, data: Vec<u8> },
 }
 
 #[derive(Debug, Clone, PartialEq, Eq)]
@@ -148,6 +151,13 @@ fn ser(s: &Shape, out: &mut Vec<u8>) {
                         ser(&lenfield(*w2, *be2, data.len()), out);
                         out.extend_from_slice(data);
                     }
+                    Field::SizedSkipped { width, be, flag, mask, data } => {
+                        ser(&lenfield(*width, *be, data.len()), out);
+                        out.push(*flag);
+                        if flag & mask == 0 {
+                            out.extend_from_slice(data);
+                        }
+                    }
                 }
             }
         }
@@ -178,6 +188,7 @@ fn blank(s: &Shape) -> Shape {
                     Field::SelfSkip { .. } => Field::SelfSkip { flag: 0 },
                     Field::SizedFlag { width, be, mask, target, .. } => Field::SizedFlag { width: *width, be: *be, flag: 0, mask: *mask, target: blank(target) },
                     Field::SizedLen { w1, be1, w2, be2, .. } => Field::SizedLen { w1: *w1, be1: *be1, w2: *w2, be2: *be2, data: vec![] },
+                    Field::SizedSkipped { width, be, mask, .. } => Field::SizedSkipped { width: *width, be: *be, flag: 0, mask: *mask, data: vec![] },
                 })
                 .collect(),
         ),
@@ -266,6 +277,12 @@ fn leaves_m(s: &Shape, out: &mut Vec<Leaf>, unread: bool) {
                         leaves(&lenfield(*w1, *be1, *w2 as usize), out);
                         leaves(&lenfield(*w2, *be2, data.len()), out);
                         out.push(Leaf::Slice(data.clone()));
+                    }
+                    Field::SizedSkipped { width, be, flag, mask, data } => {
+                        leaves(&lenfield(*width, *be, data.len()), out);
+                        out.push(Leaf::U8(*flag));
+                        // a skipped block keeps the (empty) value of the blank message
+                        out.push(Leaf::Slice(if flag & mask == 0 { data.clone() } else { vec![] }));
                     }
                 }
             }
@@ -399,6 +416,14 @@ fn build_component(fs: &[Field], writing: bool) -> Component {
                 c.insert(fname, Box::new(DynOption::new(*flag, move |v: &u8| if *v & m != 0 { MessageOption::SkipField(tn.clone()) } else { MessageOption::None })));
                 c.insert(tname, build(target, writing));
             }
+            Field::SizedSkipped { width, be, flag, mask, data } => {
+                let (fname, dname) = (format!("f{}flag", i), format!("f{}data", i));
+                c.insert(name.clone(), len_message(*width, *be, data.len(), dname.clone()));
+                let (m, dn) = (*mask, dname.clone());
+                c.insert(fname, Box::new(DynOption::new(*flag, move |v: &u8| if *v & m != 0 { MessageOption::SkipField(dn.clone()) } else { MessageOption::None })));
+                // the writer holds the block even when it is skipped (write and length must leave it out)
+                c.insert(dname, Box::new(if writing { data.clone() } else { Vec::new() }));
+            }
             Field::SizedLen { w1, be1, w2, be2, data } => {
                 let (n2, dname) = (format!("f{}len2", i), format!("f{}data", i));
                 c.insert(name.clone(), len_message(*w1, *be1, *w2 as usize, n2.clone()));
@@ -521,6 +546,7 @@ fn min_len(s: &Shape) -> usize {
                 Field::Skip { .. } | Field::SkipChain { .. } | Field::SelfSkip { .. } => 1,
                 Field::SizedFlag { width, .. } => *width as usize + 1,
                 Field::SizedLen { w1, w2, .. } => (*w1 + *w2) as usize,
+                Field::SizedSkipped { width, .. } => *width as usize + 1,
             })
             .sum(),
     }
@@ -565,7 +591,11 @@ fn gen_shape(s: &mut Src, depth: usize) -> Shape {
 fn gen_field(s: &mut Src, depth: usize) -> Field {
     let width = s.pick(&[1u8, 2, 2, 4]);
     let be = s.bool();
-    match s.below(11) {
+    match s.below(12) {
+        11 => {
+            let n = if width == 1 { s.below(20) } else { s.below(300) };
+            Field::SizedSkipped { width, be, flag: s.u8(), mask: s.pick(&[0x01u8, 0x20, 0x80, 0xFF]), data: s.fill(n) }
+        }
         9 => Field::SizedFlag { width, be, flag: s.u8(), mask: s.pick(&[0x01u8, 0x20, 0x80, 0xFF]), target: gen_shape(s, depth.min(1)) },
         10 => {
             let w2 = s.pick(&[1u8, 2, 4]);
@@ -625,6 +655,10 @@ fn revalue(t: &Shape, s: &mut Src) -> Shape {
                     Field::SkipChain { mask1, mask2, target, .. } => Field::SkipChain { flag1: s.u8(), mask1: *mask1, flag2: s.u8(), mask2: *mask2, target: revalue(target, s) },
                     Field::SelfSkip { .. } => Field::SelfSkip { flag: s.u8() },
                     Field::SizedFlag { width, be, mask, target, .. } => Field::SizedFlag { width: *width, be: *be, flag: s.u8(), mask: *mask, target: revalue(target, s) },
+                    Field::SizedSkipped { width, be, mask, data, .. } => {
+                        let n = if *width == 1 { s.below(20) } else { s.below(data.len() + 8) };
+                        Field::SizedSkipped { width: *width, be: *be, flag: s.u8(), mask: *mask, data: s.fill(n) }
+                    }
                     Field::SizedLen { w1, be1, w2, be2, data } => {
                         let n = if *w2 == 1 { s.below(20) } else { s.below(data.len() + 8) };
                         Field::SizedLen { w1: *w1, be1: *be1, w2: *w2, be2: *be2, data: s.fill(n) }
@@ -1420,6 +1454,20 @@ pub fn check(rep: &Report) {
         for width in [1u8, 2, 4] {
             for target in [Shape::U8(0x42), Shape::U32 { v: 0xDEADBEEF, be: false }, Shape::Block(vec![1, 2, 3])] {
                 sized.push(ModelCase { shape: Shape::Component(vec![Field::Plain(Shape::U8(5)), Field::SizedFlag { width, be: false, flag, mask: 0x81, target: target.clone() }, Field::Plain(Shape::U16 { v: 0x1234, be: true })]) });
+            }
+        }
+    }
+    // a block that is absent (skipped by a flag) although its length field announces n bytes, followed by more fields, alone and
+    // as the element of a sequence of records
+    for n in [0usize, 1, 2, 7, 300] {
+        for flag in [0u8, 1] {
+            for width in [1u8, 2, 4] {
+                if width == 1 && n > 255 {
+                    continue;
+                }
+                let rec = vec![Field::SizedSkipped { width, be: false, flag, mask: 1, data: vec![0xAB; n] }, Field::Plain(Shape::U16 { v: 0x1234, be: true })];
+                sized.push(ModelCase { shape: Shape::Component(rec.clone()) });
+                sized.push(ModelCase { shape: Shape::Trame(vec![Shape::Component(rec.clone()), Shape::Component(rec.clone()), Shape::U8(9)]) });
             }
         }
     }
